@@ -182,10 +182,10 @@ func genCase(r *vrun.Run, idx int) caseSpec {
 	if idx%6 == 5 {
 		c.Backend = "mem"
 	}
-	forms := []string{"abs", "abs-trailing", "rel", "dot-rel", "updown-rel", "rel-trailing", "dot", "abs-new-deep", "rel-new-deep", "parent", "parent-trailing", "parent-parent", "parent-rel"}
+	forms := []string{"abs", "abs-trailing", "rel", "dot-rel", "updown-rel", "rel-trailing", "dot", "abs-new-deep", "rel-new-deep", "parent", "parent-trailing", "parent-parent", "parent-rel", "abs-not-utf8", "rel-not-utf8"}
 	c.DestForm = forms[rng.IntN(len(forms))]
 	if c.Backend == "mem" {
-		c.DestForm = []string{"abs", "abs-trailing", "abs-new-deep"}[rng.IntN(3)]
+		c.DestForm = []string{"abs", "abs-trailing", "abs-new-deep", "abs-not-utf8"}[rng.IntN(4)]
 	}
 	c.Limits = []string{"none", "default-recursive", "non-recursive", "tight"}[rng.IntN(4)]
 	c.Prepop = rng.IntN(3) == 0
@@ -357,6 +357,15 @@ func runCase(r *vrun.Run, c caseSpec, scratch string) {
 		destArg, destAbs = filepath.Join(work, "new", "deep", "out"), filepath.Join(work, "new", "deep", "out")
 	case "rel-new-deep":
 		destArg, destAbs = "new/deep/out", filepath.Join(work, "new", "deep", "out")
+	case "abs-not-utf8", "rel-not-utf8":
+		// the name of the destination is not valid UTF-8 (Latin-1 bytes); the directory its transcoding names exists next to it
+		name := "d\xe9p\xf4t-r\xe9sultat-\xe0-v\xe9rifier"
+		destAbs = filepath.Join(work, name)
+		destArg = destAbs
+		if c.DestForm == "rel-not-utf8" {
+			destArg = name
+		}
+		write(filepath.Join(work, "d\u00e9p\u00f4t-r\u00e9sultat-\u00e0-v\u00e9rifier", "victim.txt"), []byte("sibling named by the transcoding of the destination"))
 	case "parent", "parent-trailing":
 		// destination made of parent references only: the working directory is a child of the destination
 		destAbs = filepath.Join(work, "out")
